@@ -11,3 +11,5 @@ for id in "$@"; do
   elif [ $code -eq 0 ]; then echo "MISSED by $id"; else echo "ERROR($code) in $id: $(echo "$out" | tail -3)"; fi
 done
 git -C /repo checkout -- .
+# rebuild from the clean tree so that the binary left behind is never the patched one
+(cd "$ROOT/sim" && cargo build --release >/dev/null 2>&1)
